@@ -45,18 +45,19 @@ PLAN = [
      ['get_resolution', 'deserialize', 'serialize', 'cell_to_children', 'cell_to_parent', 'get_res0_cells',
       'is_first_child', 'get_stride']),
     ('a5/core/compact.py', 'compact', ['_hierarchical_key', 'uncompact', 'compact']),
+    ('a5/core/hex.py', 'hex', ['hex_to_u64', 'u64_to_hex']),
 ]
 
 ERR = {'ValueError': '.value', 'IndexError': '.index', 'TypeError': '.type', 'ZeroDivisionError': '.zerodiv',
        'OverflowError': '.overflow'}
 
-T_INT, T_BOOL, T_OPTINT, T_CELL, T_ORIGIN, T_LISTINT, T_LISTORIGIN, T_PROP, T_NONE = \
-    'Int', 'Bool', 'Option Int', 'Py.SCell', 'Int', 'List Int', 'List Int', 'Prop', 'Unit'
+T_INT, T_BOOL, T_OPTINT, T_CELL, T_ORIGIN, T_LISTINT, T_LISTORIGIN, T_PROP, T_NONE, T_STR = \
+    'Int', 'Bool', 'Option Int', 'Py.SCell', 'Int', 'List Int', 'List Int', 'Prop', 'Unit', 'String'
 
 def ann_type(a):
     s = ast.unparse(a) if a is not None else None
     return {'int': T_INT, 'bool': T_BOOL, 'Optional[int]': T_OPTINT, 'A5Cell': T_CELL, 'Origin': T_ORIGIN,
-            'List[int]': T_LISTINT, None: None}.get(s, None) or (_ for _ in ()).throw(Unsupported(f'type annotation {s}'))
+            'List[int]': T_LISTINT, 'str': T_STR, None: None}.get(s, None) or (_ for _ in ()).throw(Unsupported(f'type annotation {s}'))
 
 def lname(n):
     """Lean identifier for a Python name (no clashes with Lean keywords used here)."""
@@ -184,6 +185,12 @@ def tr_expr(fn, e, env):
             if fld not in ('origin', 'segment', 'S', 'resolution'):
                 raise Unsupported(f'cell field {fld}')
             return bv, f'{paren(v)}.{fld}', T_INT
+        if isinstance(e.slice, ast.Slice):
+            bv, v, tv = tr_expr(fn, e.value, env)
+            sl = e.slice
+            if tv != T_STR or sl.upper is not None or sl.step is not None or not (isinstance(sl.lower, ast.Constant) and isinstance(sl.lower.value, int) and sl.lower.value >= 0):
+                raise Unsupported('slice other than <str>[<non-negative literal>:]')
+            return bv, f'(Py.strFrom {paren(v)} {sl.lower.value})', T_STR
         bv, v, tv = tr_expr(fn, e.value, env)
         bi, i, ti = tr_expr(fn, e.slice, env)
         if tv not in (T_LISTINT,) or ti != T_INT:
@@ -246,6 +253,11 @@ def tr_call(fn, e, env):
     binds = [b for a in args for b in a[0]]
     texts = [a[1] for a in args]
     types = [a[2] for a in args]
+    if f == 'hex' and types == [T_INT]:
+        return binds, f'(Py.hex {paren(texts[0])})', T_STR
+    if f == 'int' and types == [T_STR, T_INT] and isinstance(e.args[1], ast.Constant):
+        t = fn.tmp()
+        return binds + [(t, f'Py.intOfStr {paren(texts[0])} {paren(texts[1])}')], t, T_INT
     if f in ('max', 'min') and len(args) == 2 and types == [T_INT, T_INT]:
         return binds, f'({f} {paren(texts[0])} {paren(texts[1])})', T_INT
     if f == 'len' and types == [T_LISTINT]:
